@@ -1396,7 +1396,7 @@ MANIFEST = {
     "text": "Lean theorems over regenerated tables (operator/binder table of syntax/operator.py, lambda spelling of pprint.py, rule ladder and ALL literal "
             "terminals of the grammar in syntax/parser.py). TERMS (precedence core: operators in all positions, prefix operators, application, binders "
             "-- printed one by one, the printer does not collapse `!a. !b.` --, if-then-else, atoms incl. numerals; negative numerals and fractions are "
-            "prefix minus and `/`; let is an application): parse_print (tokens), lex_print (TEXT without line limit -> tokens, model of Lark's standard "
+            "prefix minus and `/`; let is an application; TYPE ANNOTATIONS `(t::T)` around any subterm and `%x::T. t` on any binder -- whichever the printer chooses, the theorems hold for every choice, parse_print_annotated): parse_print (tokens), lex_print (TEXT without line limit -> tokens, model of Lark's standard "
             "lexer, names NameOK), parse_print_text (composition), broken_same_tokens / parse_print_broken (every layout that keeps each separating "
             "blank, adds arbitrary whitespace after it and writes a whitespace run before `else` -- what print_ast does for every line width -- lexes to "
             "the same tokens). TYPES: type_parse_print (tokens), type_lex_print (text of print_type -> tokens), type_parse_print_text. SEQUENTS: "
@@ -1408,9 +1408,11 @@ MANIFEST = {
             "driver. The property itself (12 settings, memo histories within and across theories, proof items) is checked by round trip on type-directed "
             "generated terms and all library statements.",
     "note": "Trusted: Lean kernel, propext/Classical.choice/Quot.sound; the harness generator, its own alpha-equality and type checker; the regex/ast reader "
-            "of grammar, operator.py and pprint.py; Lark's LALR tables. NOT covered by a theorem (run-time round trip / correspondence only): terms WITH type "
-            "annotations `(c::T)`, `%x::T. t` (which subterms get annotated, and the annotation syntax itself, are outside the skeleton language); the "
-            "literal syntaxes char/string, list and set literals, intervals, set comprehension, function update; the text level of instantiations and "
+            "of grammar, operator.py and pprint.py; Lark's LALR tables. NOT covered by a theorem (run-time round trip / correspondence only): WHICH subterms "
+            "infer_printed_type annotates and that this suffices for type inference (the annotation SYNTAX is inside the theorems; real annotated prints "
+            "are fed to the model parser on every run: skeleton with annotations erased == projection of the term, annotation types == the printer's); "
+            "the literal syntaxes, by frequency in the library statements: intervals {m..n} (180 of 3997), set comprehension (151), set literals (132), "
+            "function update (21), list literals (8), char/string (0); the text level of instantiations and "
             "proof items (inst_parse_print is about tokens; the argument signatures of export_proof_item / parse_proof_rule are oracle only); the "
             "CONTEXTUAL restriction of Lark's lexer (the model is the standard lexer; they differ only on texts that NameOK / the printer's spacing "
             "exclude); the link term <-> skeleton (projection in the harness: names that are constants of the theory, binder renaming, over-applied "
